@@ -28,6 +28,8 @@ ASSUMPTIONS = [
 
 TARGETS = {
     "68000": dict(cpu="68000", origins=[0, 0x7f00, 0x7fc0], table=0x20000, byte="dc.b", be=True, wordsz=4),
+    "68020": dict(cpu="68020", origins=[0x7ffffe00, 0x7fffffc0, 0x80000000, 0xffff7e00, 0xffff7fc0], table=None,
+                  byte="dc.b", be=True, wordsz=4),
     "6502": dict(cpu="6502", origins=[0x40, 0xc0, 0xe8], table=0x4000, byte="byt", be=False, wordsz=2),
     "6809": dict(cpu="6809", origins=[0x40, 0xc0, 0xe8], table=0x4000, byte="fcb", be=True, wordsz=2),
     "6811": dict(cpu="6811", origins=[0x40, 0xc0, 0xe8], table=0x4000, byte="fcb", be=True, wordsz=2),
@@ -35,6 +37,7 @@ TARGETS = {
 }
 KINDS = {
     "68000": ["word", "abs", "jmp", "bra", "bsr", "bcc", "equ"],
+    "68020": ["word", "abs", "jmp", "bra", "bsr", "bcc", "equ"],
     "6502": ["word", "abs", "jmp", "sbra", "equ"],
     "6809": ["word", "abs", "jmp", "bra", "sbra", "equ"],
     "6811": ["word", "abs", "jmp", "sbra", "equ"],
@@ -107,7 +110,7 @@ def render(case):
     items = case["items"]
     B = t["byte"]
     L = ["\tcpu %s" % t["cpu"]]
-    if tn == "68000":
+    if tn in ("68000", "68020"):
         L.append("\tpadding %s" % ("on" if case["padding"] else "off"))
     L.append("\torg %d" % case["origin"])
     labpos = {it[1]: i for i, it in enumerate(items) if it[0] == "lab"}
@@ -116,7 +119,7 @@ def render(case):
     for i, it in enumerate(items):
         if it[0] == "lab":
             k = it[1]
-            if tn == "68000":    # word-sized marker: takes part in alignment padding like an instruction
+            if tn in ("68000", "68020"):    # word-sized marker: takes part in alignment padding like an instruction
                 L.append("lab%d:\tdc.w 42330,%d" % (k, k))
             else:
                 L.append("lab%d:\t%s 165,90,%d,%d" % (k, B, k >> 8, k & 255))
@@ -125,7 +128,7 @@ def render(case):
             if n:
                 if tn == "8086":
                     L.append("\tdb %d dup (17)" % n)
-                elif tn == "68000":
+                elif tn in ("68000", "68020"):
                     L.append("\tdc.b [%d]17" % n)
                 else:
                     L.append("\t%s [%d]17" % (B, n))
@@ -133,7 +136,7 @@ def render(case):
             _, kind, k, rid = it
             if kind == "sbra" and worst_distance(items, i, labpos[k]) > 118:
                 kind = "jmp"
-            mark = ("\tdc.w 49980,%d" % rid) if tn == "68000" else "\t%s 195,60,%d,%d" % (B, rid >> 8, rid & 255)
+            mark = ("\tdc.w 49980,%d" % rid) if tn in ("68000", "68020") else "\t%s 195,60,%d,%d" % (B, rid >> 8, rid & 255)
             fwd = labpos[k] > i
             nforward += fwd
             if kind == "equ":
@@ -141,6 +144,8 @@ def render(case):
             L.append(mark)
             op = {
                 "68000": dict(word="dc.l lab%d", abs="lea lab%d,a0", jmp="jmp lab%d", bra="bra lab%d", bsr="bsr lab%d",
+                              bcc="beq lab%d", equ="dc.l equ%d"),
+                "68020": dict(word="dc.l lab%d", abs="lea lab%d,a0", jmp="jmp lab%d", bra="bra lab%d", bsr="bsr lab%d",
                               bcc="beq lab%d", equ="dc.l equ%d"),
                 "6502": dict(word="adr lab%d", abs="lda lab%d", jmp="jmp lab%d", sbra="bne lab%d", equ="adr equ%d"),
                 "6809": dict(word="fdb lab%d", abs="lda lab%d", jmp="jmp lab%d", bra="lbra lab%d", sbra="bra lab%d",
@@ -150,9 +155,13 @@ def render(case):
             }[tn][kind]
             L.append("\t" + op % (rid if kind == "equ" else k))
             refs.append((rid, kind, k, fwd))
-    L.append("\torg %d" % t["table"])
+    if t["table"] is None:      # 68020: the table follows the code (the origin is near the top of the address space)
+        L.append("\talign 4")
+        L.append("\tdc.l 3735928559")
+    else:
+        L.append("\torg %d" % t["table"])
     for k in sorted(labpos):
-        L.append("\t%s lab%d" % ({"68000": "dc.l", "6502": "adr", "8086": "dw"}.get(tn, "fdb"), k))
+        L.append("\t%s lab%d" % ({"68000": "dc.l", "68020": "dc.l", "6502": "adr", "8086": "dw"}.get(tn, "fdb"), k))
     return "\n".join(L) + "\n", refs, labpos
 
 
@@ -174,7 +183,7 @@ def decode(tn, kind, mem, a):
 
     def le16(i):
         return b(i) | (b(i + 1) << 8)
-    if tn == "68000":
+    if tn in ("68000", "68020"):
         if kind in ("word", "equ"):
             return (be16(0) << 16) | be16(2), 4
         if kind in ("abs", "jmp"):
@@ -193,7 +202,9 @@ def decode(tn, kind, mem, a):
         if b(1) == 0:
             return (a + 2 + s16(be16(2))) & 0xffffffff, 4
         if b(1) == 0xff:
-            raise ValueError("32-bit branch on a 68000")
+            if tn == "68000":
+                raise ValueError("32-bit branch on a 68000")
+            return (a + 2 + ((be16(2) << 16) | be16(4))) & 0xffffffff, 6
         return (a + 2 + s8(b(1))) & 0xffffffff, 2
     if tn == "6502":
         if kind in ("word", "equ"):
@@ -276,7 +287,7 @@ def execute(case):
     if r.timed_out:
         return engine.inconclusive("timeout", classes)
     items = case["items"]
-    has_odd = tn == "68000" and case["padding"]
+    has_odd = tn in ("68000", "68020") and case["padding"]
     nfwd = sum(1 for x in refs if x[3])
     nt = []
     if nfwd:
@@ -313,8 +324,14 @@ def execute(case):
         labaddr[k] = hits[0]
     t = TARGETS[tn]
     # table words
+    tbase = t["table"]
+    if tbase is None:
+        hits = find_all(mem, bytes([0xde, 0xad, 0xbe, 0xef]))
+        if len(hits) != 1:
+            return engine.discarded("marker-not-unique", classes)
+        tbase = hits[0] + 4
     for i, k in enumerate(sorted(labpos)):
-        a = t["table"] + i * t["wordsz"]
+        a = tbase + i * t["wordsz"]
         try:
             v, _ = decode(tn, "word", mem, a)
         except (KeyError, ValueError) as e:
@@ -409,6 +426,11 @@ def fixed_cases(tier):
                         items=[["ref", "word", 0, 0], ["fill", 1], ["lab", 0]]))
         out.append(dict(target="68000", origin=0, padding=pad,
                         items=[["ref", "bra", 0, 0], ["fill", 125], ["fill", 1], ["lab", 0], ["ref", "bsr", 0, 1]]))
+    for org in (0x7ffffe00, 0x80000000, 0xffff7f00):
+        for pad in (True, False):
+            out.append(dict(target="68020", origin=org, padding=pad,
+                            items=[["ref", "word", 0, 0], ["ref", "bra", 1, 1], ["fill", 1], ["lab", 0], ["fill", 131],
+                                   ["lab", 1], ["ref", "abs", 0, 2], ["ref", "jmp", 1, 3]]))
     for tn in ("6502", "6809", "6811"):
         for org in (0xe8, 0xf4, 0xf8):
             out.append(dict(target=tn, origin=org, padding=False,
